@@ -15,7 +15,7 @@ FILES = ["windpyutils/parallel/pools.py", "windpyutils/parallel/maps.py", "windp
 
 def build_plan(choice: Choice, tier):
     d = choice.draw
-    thorough = tier == "thorough"
+    thorough = tier == "thorough" or d(8, "large.sizes") == 7
     p = {}
     p["mode"] = "mul_p_map" if d(3, "mode") == 2 else "FunctorMap"
     p["workers"] = 1 + d(6 if thorough else 4, "workers")
